@@ -1,6 +1,7 @@
 package interp
 
 import (
+	"fmt"
 	"go/token"
 	"go/types"
 
@@ -54,15 +55,86 @@ func scalarResult(v value) bool {
 	return false
 }
 
+type sumKey struct {
+	e      *sumEntry
+	a0, a1 uint32
+}
+
+type sumEntry struct {
+	params []*term.Term // placeholder variables, nil for non-scalar parameters
+	kinds  []types.BasicKind
+	res    []*term.Term // result terms over the placeholders
+	rkinds []types.BasicKind
+	tuple  bool
+	failed bool
+}
+
+// summarize returns the result of calling fn on args through its cached
+// summary (computed once per worker over placeholder variables).
 func (in *Interp) summarize(caller *frame, pos token.Pos, fn *ssa.Function, args []value) (res value, ok bool) {
 	any := false
 	for _, a := range args {
-		if hasSym(a) {
+		switch a.(type) {
+		case *Sym:
 			any = true
+		case bool, int, int8, int16, int32, int64, uint, uint8, uint16, uint32, uint64, uintptr:
+		default:
+			return nil, false // only scalar parameters are summarised
 		}
 	}
 	if !any {
 		return nil, false
+	}
+	e := in.sumCache[fn]
+	if e == nil {
+		e = in.buildSummary(caller, pos, fn, args)
+		in.sumCache[fn] = e
+	}
+	if e.failed {
+		return nil, false
+	}
+	sub := map[string]*term.Term{}
+	for i, p := range e.params {
+		if kindOf(args[i]) != e.kinds[i] {
+			return nil, false
+		}
+		sub[p.Name] = in.toTerm(args[i])
+	}
+	in.ex.mu.Lock()
+	in.ex.res.Summarized[fnName(fn)]++
+	in.ex.mu.Unlock()
+	if !e.tuple && len(args) <= 2 {
+		key := sumKey{e: e, a0: in.toTerm(args[0]).ID}
+		if len(args) == 2 {
+			key.a1 = in.toTerm(args[1]).ID
+		}
+		if r, hit := in.sumInst[key]; hit {
+			return in.fromTerm(r, e.rkinds[0]), true
+		}
+		r := in.ts.Subst(e.res[0], sub, map[uint32]*term.Term{})
+		in.sumInst[key] = r
+		return in.fromTerm(r, e.rkinds[0]), true
+	}
+	memo := map[uint32]*term.Term{}
+	if !e.tuple {
+		return in.fromTerm(in.ts.Subst(e.res[0], sub, memo), e.rkinds[0]), true
+	}
+	out := make(tuple, len(e.res))
+	for i := range e.res {
+		out[i] = in.fromTerm(in.ts.Subst(e.res[i], sub, memo), e.rkinds[i])
+	}
+	return out, true
+}
+
+func (in *Interp) buildSummary(caller *frame, pos token.Pos, fn *ssa.Function, args []value) (e *sumEntry) {
+	e = &sumEntry{}
+	formal := make([]value, len(args))
+	for i, a := range args {
+		k := kindOf(a)
+		v := in.ts.Var(fmt.Sprintf("__sum.%s.p%d", fn.Name(), i), kindWidth(k))
+		e.params = append(e.params, v)
+		e.kinds = append(e.kinds, k)
+		formal[i] = &Sym{T: v, K: k}
 	}
 	type cs struct {
 		cond *term.Term
@@ -72,24 +144,26 @@ func (in *Interp) summarize(caller *frame, pos token.Pos, fn *ssa.Function, args
 	stack := [][]bool{nil}
 	mark := len(in.undo)
 	savedSum := in.sum
+	restore := func() {
+		for i := len(in.undo) - 1; i >= mark; i-- {
+			u := in.undo[i]
+			if u.fn != nil {
+				u.fn()
+			} else {
+				*u.addr = u.old
+			}
+		}
+		in.undo = in.undo[:mark]
+	}
 	defer func() {
 		in.sum = savedSum
 		in.summaryDepth = 0
 		if r := recover(); r != nil {
-			// restore and fall back to ordinary execution
-			for i := len(in.undo) - 1; i >= mark; i-- {
-				u := in.undo[i]
-				if u.fn != nil {
-					u.fn()
-				} else {
-					*u.addr = u.old
-				}
-			}
-			in.undo = in.undo[:mark]
+			restore()
 			if ee, isEE := r.(engineError); isEE && len(ee.msg) > 7 && ee.msg[:7] == "budget:" {
 				panic(r)
 			}
-			res, ok = nil, false
+			e.failed = true
 		}
 	}()
 	for len(stack) > 0 {
@@ -97,22 +171,12 @@ func (in *Interp) summarize(caller *frame, pos token.Pos, fn *ssa.Function, args
 		stack = stack[:len(stack)-1]
 		in.sum = &sumState{prefix: pre}
 		in.summaryDepth = 1
-		r := in.callSSAraw(caller, pos, fn, args)
+		r := in.callSSAraw(caller, pos, fn, formal)
 		in.summaryDepth = 0
-		if len(in.undo) != mark {
-			// writes happened: only frame-local ones are harmless, and we cannot tell
-			for i := len(in.undo) - 1; i >= mark; i-- {
-				u := in.undo[i]
-				if u.fn != nil {
-					u.fn()
-				} else {
-					*u.addr = u.old
-				}
-			}
-			in.undo = in.undo[:mark]
-		}
+		restore()
 		if !scalarResult(r) {
-			return nil, false
+			e.failed = true
+			return e
 		}
 		s := in.sum
 		cases = append(cases, cs{in.ts.And(s.conds...), r})
@@ -121,30 +185,33 @@ func (in *Interp) summarize(caller *frame, pos token.Pos, fn *ssa.Function, args
 			stack = append(stack, alt)
 		}
 		if len(cases) > 512 {
-			return nil, false
+			e.failed = true
+			return e
 		}
 	}
-	in.ex.mu.Lock()
-	in.ex.res.Summarized[fnName(fn)]++
-	in.ex.mu.Unlock()
-	merge := func(get func(value) value) value {
+	merge := func(get func(value) value) (*term.Term, types.BasicKind) {
 		last := get(cases[len(cases)-1].res)
 		k := kindOf(last)
 		t := in.toTerm(last)
 		for i := len(cases) - 2; i >= 0; i-- {
 			t = in.ts.Ite(cases[i].cond, in.toTerm(get(cases[i].res)), t)
 		}
-		return in.fromTerm(t, k)
+		return t, k
 	}
 	if tp, isT := cases[0].res.(tuple); isT {
-		out := make(tuple, len(tp))
+		e.tuple = true
 		for j := range tp {
 			j := j
-			out[j] = merge(func(v value) value { return v.(tuple)[j] })
+			t, k := merge(func(v value) value { return v.(tuple)[j] })
+			e.res = append(e.res, t)
+			e.rkinds = append(e.rkinds, k)
 		}
-		return out, true
+		return e
 	}
-	return merge(func(v value) value { return v }), true
+	t, k := merge(func(v value) value { return v })
+	e.res = []*term.Term{t}
+	e.rkinds = []types.BasicKind{k}
+	return e
 }
 
 // callSSAraw runs fn's body without stub/intrinsic/summary dispatch at the top.
@@ -156,4 +223,3 @@ func (in *Interp) callSSAraw(caller *frame, pos token.Pos, fn *ssa.Function, arg
 	return in.interpretBody(f, args)
 }
 
-var _ = types.Bool
